@@ -205,7 +205,8 @@ PROPS["C09"] = {
     "level_text": "Generated-history search against an exact expectation of the dead-letter log of every monitor; the feedback loop with departed subscribers is decided by quiescence rounds, not by time.",
     "level_note": "single driver goroutine; 'never blocks' shows up only as an inconclusive timeout",
     "assumptions": EVENTS_ASSUME,
-    "legs": [rapid("hist", "events", "TestDeadLetters", 2000, 40000, shards=(2, 12))],
+    "legs": [rapid("hist", "events", "TestDeadLetters", 2000, 40000, shards=(2, 12)),
+             rapid("sched", "sched", "TestDeadLetterSchedules", 3000, 60000, shards=(2, 12), flavour="sched")],
 }
 
 PROPS["C12"] = {
